@@ -24,7 +24,7 @@ def plan(ctx):
                               desc="evaluating the real node (incl. failing children) leaves its fields identical; container results are fresh"))
     for t1, text in enumerate(h.TEXTS):
         obs.append(Obligation(f"cache.seq.t{t1}", "xh", "c17", "cache_sequence", param={"t1": t1, "quick": quick}, timeout=T * 2,
-                              bounds=("QUICK: third call repeats the first. " if quick else "") + "3 calls: first on this text, the other two over 13 texts (repeats, whitespace / newline / CR / NBSP near-duplicates, "
+                              bounds=("QUICK: third call repeats the first. " if quick else "third call on one of 4 texts derived from the first two. ") + "3 calls: first on this text, the other two over 13 texts (repeats, whitespace / newline / CR / NBSP near-duplicates, "
                                      "failing sources, nested literals); parse or eval per call; cache forgets everything before any call or not, stores what it is given or drops it (always-evicting); one call may shadow a builtin through its names; "
                                      "pre-warmed or empty; host deep-mutates earlier results or not (all symbolic; bodies run natively)",
                               desc=f"call sequences starting with {text!r}: cached parser == uncached parser, call by call"))
